@@ -1055,8 +1055,8 @@ theorem tie_branch_loops :
     Gen.detLoops = [("i", "0", "i<n", "up")] ∧
     Gen.invertInitLoops = [("i", "0", "i<n", "up")] ∧
     Gen.forwardLoops = [("i", "0", "i<n", "up"), ("j", "0", "j<i", "up"), ("k", "0", "k<n", "up")] ∧
-    Gen.backwardLoops = [("i", "n", "i>0", "down, --i first"), ("k", "0", "k<n", "up"), ("j", "i+1", "j<n", "up")] ∧
-    Gen.unpermuteLoops = [("i", "n", "i>0", "down, --i first"), ("j", "0", "j<n", "up")] ∧
+    Gen.backwardLoops = [("i", "n-1", "i>=0", "down"), ("k", "0", "k<n", "up"), ("j", "i+1", "j<n", "up")] ∧
+    Gen.unpermuteLoops = [("i", "n-1", "i>=0", "down"), ("j", "0", "j<n", "up")] ∧
     Gen.unpermuteSwap = ["(*this)[j][i]", "(*this)[j][pi]"] ∧
     Gen.diagLoops = [("i", "0", "i<n", "up"), ("i", "0", "i<n", "up"), ("i", "1", "i<n", "up")] :=
   ⟨rfl, rfl, rfl, rfl, rfl, rfl, rfl, rfl⟩
